@@ -281,11 +281,17 @@ def forgeOut (cfg : Cfg) (cs : List Node) : Core → List (Addr × Lbl) → Exce
       if out ∉ labelsOf c.outs then .error .key
       else forgeOut cfg cs (if cfg.pushLinks then { c with outs := setVal c.outs out v } else c) rest
 
+/-- every adopted child calls back `Composite.add_child`, which forgets the composite's cache
+(`self._cached_inputs = None  # Reset cache after graph change`) -/
+def Core.afterAdopt (c : Core) (cs : List Node) : Core :=
+  if cs.isEmpty then c else { c with cached := none }
+
 /-- `Composite.__setstate__` → `LexicalParent.__setstate__` → (`Macro`/`For`) link forging, on a
 state whose children `cs` have already been set up -/
 def setstate (cfg : Cfg) (c : Core) (cs : List Node) (ds ss fo : List (Addr × Addr)) : Except Err Node :=
   if !(c.starting.all fun l => decide (l ∈ childLabels cs)) then .error .key
   else
+    let c := c.afterAdopt cs
     let cs := cs.map Node.adopt
     if !(checkStrs (inDom cs) (outDom cs) ds) then .error .key
     else if !(checkStrs (sInDom cs) (sOutDom cs) ss) then .error .key
@@ -334,7 +340,7 @@ def fileLoad (cfg : Cfg) (selfCls : Nat) (p : PNode) : Except Err Node :=
 
 /-! ## observation -/
 
-/-- one line per node: where it is, its record (live executors are not state), every child
+/-- one line per node: where it is, its record (without live executors and cache), every child
 input's data connections in fetch order, every child signal output's connections in firing order -/
 structure Rec where
   path : Path
@@ -345,7 +351,8 @@ structure Rec where
 
 def table (dom : List Addr) (f : Addr → List Addr) : List (Addr × List Addr) := dom.map fun a => (a, f a)
 
-def Core.seen (c : Core) : Core := { c with exec := c.exec.strip, bodyExec := c.bodyExec.strip }
+/-- what the statement lists of a node's record: live executors and the cache are not part of it -/
+def Core.seen (c : Core) : Core := { c with exec := c.exec.strip, bodyExec := c.bodyExec.strip, cached := none }
 
 mutual
 def obs (p : Path) : Node → List Rec
